@@ -1,9 +1,23 @@
-(* Prove/PN.v (draft): prove/pn.go without PN^2 — the pointer tree as a functional tree; one iteration of the search loop
-   re-descends from the root, which visits the same path as resuming from the node where updateAncestors stopped *)
+(* Prove/PN.v: prove/pn.go without PN^2 — the pointer tree as a functional tree; one iteration of the search loop
+   re-descends from the root, which visits the same path as resuming from the node where updateAncestors stopped.
+   Fuel: `iters` bounds the iterations of the search loop, `dfuel` the depth of one descent; running out of either is the
+   verdict `unknown` with fuel_out = true (the driver gives far more fuel than any generated case needs). *)
 From Coq Require Import NArith ZArith List Bool Lia.
-Require Import Board Move GameOver Tps Symmetry Search.
+Require Import Board Move GameOver.
 Import ListNotations.
 Open Scope N_scope.
+
+Definition pmove0 : rmove := {| mX := 0; mY := 0; mT := 0; mS := 0 |}.       (* tak.Move{} *)
+(* Move.Dest for slides (the only case expand uses it for): origin + number of drops in the direction *)
+Definition slide_dest (m : rmove) : Z * Z :=
+  let len := wrap8 (Z.of_nat (length (nibbles 8 (mS m)))) in
+  match mT m with
+  | 5 => (wrap8 (mX m - len)%Z, mY m)
+  | 6 => (wrap8 (mX m + len)%Z, mY m)
+  | 7 => (mX m, wrap8 (mY m + len)%Z)
+  | 8 => (mX m, wrap8 (mY m - len)%Z)
+  | _ => (mX m, mY m)
+  end.
 
 Definition MaxU32 : N := 2 ^ 32 - 1.
 Definition sat_add (l r : N) : N := if MaxU32 <? l + r then MaxU32 else l + r.
@@ -28,7 +42,7 @@ Section P.
 Variable basis : list N.
 Variable cfg : pcfg.
 Variable attacker_white : bool.
-Definition pmv := move_prealloc (hash_sq basis) false.
+Definition pmv := move_prealloc (hash_sq basis) true.
 
 Definition pos_equal (a b : position) : bool :=           (* Position.Equal *)
   (size a =? size b) && (hash a =? hash b) && (White a =? White b) && (Black a =? Black b) && (Standing a =? Standing b) &&
@@ -100,9 +114,8 @@ Definition expand_node (t : pn) (path : list (position * bool)) (st : pstats) : 
              let st := {| p_nodes := p_nodes st + 1; p_proved := p_proved st; p_disproved := p_disproved st; p_dropped := p_dropped st;
                           p_expanded := p_expanded st; p_maxdepth := p_maxdepth st |} in
              let reversible := (5 <=? mT m) &&
-                               (match Symmetry.dest m with
-                                | Ok (dx, dy) => let i := uint_of_int (dx + dy * Z.of_N (size cur)) in negb (has (Standing cur) i && (has (White cur) i || has (Black cur) i))
-                                | _ => true end) in
+                               (let '(dx, dy) := slide_dest m in
+                                let i := uint_of_int (dx + dy * Z.of_N (size cur)) in negb (has (Standing cur) i && (has (White cur) i || has (Black cur) i))) in
              let irrev := negb reversible in
              let and_node := negb (n_and t) in
              let value := evaluate_node irrev ((q, irrev) :: path) in
@@ -118,55 +131,65 @@ Definition expand_node (t : pn) (path : list (position * bool)) (st : pstats) : 
         p_expanded := p_expanded st + 1; p_maxdepth := N.max (p_maxdepth st) d |})
   end.
 
-(* one iteration: None = the search must stop (node limit hit at the selected leaf) or a Go panic path *)
-Fixpoint iterate (fuel : nat) (is_root : bool) (t : pn) (path : list (position * bool)) (st : pstats) : option (pn * pstats) :=
-  match fuel with O => None | S f =>
+(* one iteration.  Stop 0: the node limit was hit at the selected leaf (the Go loop breaks); Stop 1: a Go panic
+   ("consistency error" / "failed to descend"); Stop 2: the model ran out of descent fuel *)
+Inductive ires := Step (t : pn) (st : pstats) | Stop (why : N).
+
+Fixpoint iterate (fuel : nat) (is_root : bool) (t : pn) (path : list (position * bool)) (st : pstats) : ires :=
+  match fuel with O => Stop 2 | S f =>
     if n_expanded t then
       (* selectMostProving: the first child with delta = phi *)
-      (fix pick (before : list pn) (l : list pn) : option (pn * pstats) :=
+      (fix pick (before : list pn) (l : list pn) : ires :=
          match l with
-         | [] => None                                     (* "consistency error" *)
+         | [] => Stop 1                                   (* "consistency error" *)
          | c :: r =>
            if n_delta c =? n_phi t then
              match path with
              | (cur, _) :: _ =>
                match pmv cur (n_move c) with
                | Ok q => match iterate f false c ((q, n_irrev c) :: path) st with
-                         | Some (c', st') =>
+                         | Step c' st' =>
                            let t' := (PN (n_move t) (n_phi t) (n_delta t) (n_value t) (n_irrev t) (n_and t) (true) (n_pdepth t) (rev before ++ c' :: r)) in
-                           Some (update_node is_root t' st')
-                         | None => None end
-               | _ => None                                 (* "failed to descend" *)
+                           let '(t2, st2) := update_node is_root t' st' in Step t2 st2
+                         | Stop w => Stop w end
+               | _ => Stop 1                               (* "failed to descend" *)
                end
-             | [] => None
+             | [] => Stop 1
              end
            else pick (c :: before) r
          end) [] (n_kids t)
     else
-      if (0 <? pc_maxnodes cfg) && (pc_maxnodes cfg <? live st) then None else
+      if (0 <? pc_maxnodes cfg) && (pc_maxnodes cfg <? live st) then Stop 0 else
       let '(t1, st1) := expand_node t path st in
-      Some (update_node is_root t1 st1)
+      let '(t2, st2) := update_node is_root t1 st1 in Step t2 st2
   end.
 
-Definition prove_pn (p0 : position) : pn * pstats * N * rmove :=
-  let st0 := {| p_nodes := 1; p_proved := 0; p_disproved := 0; p_dropped := 0; p_expanded := 0; p_maxdepth := 0 |} in
+Definition root_node (p0 : position) : pn :=
   let v0 := evaluate_node false [(p0, false)] in
   let '(phi0, delta0) := leaf_numbers false v0 p0 in
-  let root0 := (PN (move0) (phi0) (delta0) (v0) (false) (false) (false) (0) ([])) in
-  let '(root, st) :=
-    (fix loop (k : nat) (t : pn) (st : pstats) : pn * pstats :=
-       match k with O => (t, st) | S k' =>
-         if (n_phi t =? 0) || (n_delta t =? 0) then (t, st) else
-         match iterate 300 true t [(p0, false)] st with
-         | Some (t', st') => loop k' t' st'
-         | None => (t, st)
-         end
-       end) 3000%nat root0 st0 in
-  let '(result, pv) :=
-    if n_phi root =? 0 then (1, fold_left (fun acc c => if n_delta c =? 0 then n_move c else acc) (n_kids root) move0)
-    else if n_delta root =? 0 then
-      (2, match fold_left (fun (acc : option pn) c => match acc with None => Some c | Some b => if n_pdepth b <? n_pdepth c then Some c else acc end) (n_kids root) None with
-          | Some b => n_move b | None => move0 end)
-    else (n_value root, move0) in
-  (root, st, result, pv).
+  PN (pmove0) (phi0) (delta0) (v0) (false) (false) (false) (0) ([]).
+Definition stats0 : pstats := {| p_nodes := 1; p_proved := 0; p_disproved := 0; p_dropped := 0; p_expanded := 0; p_maxdepth := 0 |}.
+
+(* the loop of search(): (tree, counters, why it stopped: 0 root solved or node limit, 1 panic, 2 out of fuel) *)
+Fixpoint search_loop (k dfuel : nat) (p0 : position) (t : pn) (st : pstats) : pn * pstats * N :=
+  match k with O => (t, st, if (n_phi t =? 0) || (n_delta t =? 0) then 0 else 2) | S k' =>
+    if (n_phi t =? 0) || (n_delta t =? 0) then (t, st, 0) else
+    match iterate dfuel true t [(p0, false)] st with
+    | Step t' st' => search_loop k' dfuel p0 t' st'
+    | Stop w => (t, st, w)
+    end
+  end.
+
+(* Prove(): 1 proven / 2 disproven / 0 unknown, and the move *)
+Definition verdict (root : pn) : N * rmove :=
+  if n_phi root =? 0 then (1, fold_left (fun acc c => if n_delta c =? 0 then n_move c else acc) (n_kids root) pmove0)
+  else if n_delta root =? 0 then
+    (2, match fold_left (fun (acc : option pn) c => match acc with None => Some c | Some b => if n_pdepth b <? n_pdepth c then Some c else acc end) (n_kids root) None with
+        | Some b => n_move b | None => pmove0 end)
+  else (n_value root, pmove0).
+
+Definition prove_pn (iters dfuel : nat) (p0 : position) : pn * pstats * N * rmove * N :=
+  let '(root, st, why) := search_loop iters dfuel p0 (root_node p0) stats0 in
+  let '(result, pv) := verdict root in
+  (root, st, result, pv, why).
 End P.
